@@ -306,15 +306,15 @@ def h_lists_paths_userdata(sx):
         nocapture = sx.bool("no_capture")
         if toml:
             lines = ['paths = ["features/a", "features/b"]', 'format = ["plain", "progress"]', 'outfiles = ["o1.txt"]', 'name = ["n1", "n2", "n3"]',
-                     'tags = ["@x", "@y"]', "[tool.behave.userdata]", 'foo = "file"', 'keep = "k"']
+                     'tags = ["@x", "@y"]', "[tool.behave.userdata]", 'foo = "file"', 'keep = "k"', 'MixedCase = "V"', 'UPPER_NAME = "u"']
         else:
             lines = ["paths = features/a\n  features/b", "format = plain\n  progress", "outfiles = o1.txt", "name = n1\n  n2\n  n3",
-                     "tags = @x\n  @y", "[behave.userdata]", "foo = file", "keep = k"]
+                     "tags = @x\n  @y", "[behave.userdata]", "foo = file", "keep = k", "MixedCase = V", "UPPER_NAME = u"]
         args = []
         if cmd_tags:
             args += ["--tags", "@cmd"]
         if cmd_define:
-            args += ["-D", "foo=cmd", "-D", "new"]
+            args += ["-D", "foo=cmd", "-D", "new", "-D", "UPPER_NAME=cmd"]
         if junit:
             args += ["--junit"]
         if nocapture:
@@ -336,6 +336,10 @@ def h_lists_paths_userdata(sx):
         else:
             sx.check(list(cfg.config_tags or []) == ["@x", "@y"], "C20.file-list-order-kept", detail=dict(det, got=cfg.config_tags))
         sx.check(cfg.userdata.get("keep") == "k", "C20.file-userdata-kept", detail=dict(det, got=dict(cfg.userdata)))
+        # names are case-sensitive and kept as written in the file
+        sx.check(cfg.userdata.get("MixedCase") == "V" and "mixedcase" not in cfg.userdata, "C20.file-userdata-kept", detail=dict(det, got=dict(cfg.userdata)))
+        sx.check(cfg.userdata.get("UPPER_NAME") == ("cmd" if cmd_define else "u") and "upper_name" not in cfg.userdata,
+                 "C20.define-overrides-file-userdata", detail=dict(det, got=dict(cfg.userdata)))
         sx.check(cfg.userdata.get("foo") == ("cmd" if cmd_define else "file"), "C20.define-overrides-file-userdata", detail=dict(det, got=dict(cfg.userdata)))
         if cmd_define:
             sx.check(cfg.userdata.get("new") == "true", "C20.bare-define-means-true", detail=dict(det, got=dict(cfg.userdata)))
